@@ -28,7 +28,7 @@ func (C14) Rule() string {
 }
 func (C14) Assumptions() []string { return commonAssumptions }
 func (C14) Budget(tier string) (int, time.Duration) {
-	return budget(tier, 160, 12000, 100*time.Second, 30*time.Minute)
+	return budget(tier, 320, 12000, 100*time.Second, 30*time.Minute)
 }
 
 func (C14) Generate(r *rand.Rand, tier string, idx int) *drv.Scenario {
